@@ -27,7 +27,7 @@ GEN_FILES = ["GenNotes"]
 DRIVERS = ["notes"]
 THEOREMS = ["C05_batch_unique", "C05_batch_layout", "C05_lookup_complete", "C05_batch_preserves_others",
             "C05_fanout2_refuted", "C05_unique_keysb_spec", "C05_notes_path_components",
-            "C05_attestation_wf", "C05_build_ranges_ok", "C05_to_authorship_log_spec", "C05_upsert_spec", "C05_replay_refuted",
+            "C05_attestation_wf", "C05_build_ranges_ok", "C05_to_authorship_log_spec", "C05_upsert_spec", "C05_replay_refuted", "C05_squash_note_ok", "C05_merge_skips_absent", "C05_squash_fallback_refuted",
             "C05_remap_base", "C05_remap_marker_refuted", "C05_gen_constants",
             "C05_nonvacuous_tree", "C05_nonvacuous_builder", "C05_nonvacuous_note_ok"]
 CLAIM = {
@@ -320,6 +320,26 @@ def op_ci_squash(w):
     return rc3
 
 
+def resolve_prefer_delete(w):
+    """scripted resolution of a stopped merge / rebase / cherry-pick: a modify/delete conflict is resolved by
+    keeping the deletion; everything else as World does (keep both sides' lines)"""
+    rc, out, _ = w.sim.realgit("status", "--porcelain", "-z")
+    for e in out.split("\0"):
+        if len(e) > 3 and e[:2] in ("DU", "UD", "DD"):
+            w.realgit("rm", "-q", "-f", "--", e[3:])
+    World._resolve_conflict(w)
+
+
+def op_remove_upstream(w, victim, how):
+    """the current branch deletes (or renames) a file the other branch's AI commits edit"""
+    if how == "mv":
+        w.git("mv", "--", victim, victim + ".moved")
+    else:
+        w.git("rm", "-q", "--", victim)
+    w.trace.append((how, victim))
+    w.op_commit(f"{how} {victim}")
+
+
 def run_op(w, op):
     if op == "ci_squash":
         op_ci_squash(w)
@@ -412,13 +432,13 @@ def scenario(args):
         out["names"] = names
         ck = Checker(sim)
         ck.step()
-        shape = r.weighted([(6, "structured"), (4, "random")])
+        shape = r.weighted([(5, "structured"), (3, "random"), (4, "deleted")])
         out["shape"] = shape
         try:
             if shape == "random":
                 for _ in range(r.range(4, opts.get("max_ops", 10))):
                     do(r.weighted(OPS))
-            else:
+            elif shape == "structured":
                 ai = lambda: r.pick(SESSIONS)
                 for _ in range(r.range(0, 1)):
                     do("edit", lambda: w.op_edit(actor=r.pick(["H", "s1", "s2"])))
@@ -443,6 +463,29 @@ def scenario(args):
                     do("switch")
                 do(final)
                 for _ in range(r.range(0, 3)):
+                    do(r.weighted(OPS))
+            if shape == "deleted":
+                # a file the feature's AI commits edit is deleted / renamed upstream; conflicts are resolved by deletion
+                w._resolve_conflict = lambda: resolve_prefer_delete(w)
+                victim = r.pick(names)
+                ai = lambda: r.pick(SESSIONS)
+                do("branch")
+                do("edit", lambda: w.op_edit(actor=ai(), path=victim, kinds=["ins", "rep"]))
+                if r.chance(1, 2):
+                    others = [n for n in names if n != victim]
+                    do("edit", lambda: w.op_edit(actor=ai(), path=(r.pick(others) if others and r.chance(2, 3) else f"new{w.counter}.txt")))
+                do("commit")
+                if r.chance(1, 3):
+                    do("edit", lambda: w.op_edit(actor=ai(), path=f"new{w.counter}.txt"))
+                    do("commit")
+                do("switch")
+                how = r.weighted([(3, "rm"), (1, "mv")])
+                do(how, lambda: op_remove_upstream(w, victim, how))
+                final = r.weighted([(6, "ci_squash"), (3, "rebase"), (2, "cherry_pick"), (2, "merge_squash")])
+                if final == "rebase":
+                    do("switch")
+                do(final)
+                for _ in range(r.range(0, 2)):
                     do(r.weighted(OPS))
         except Stop:
             pass
@@ -699,6 +742,73 @@ def replay_witness(base):
         shutil.rmtree(sim.base, ignore_errors=True)
 
 
+def squash_deleted_witness(base):
+    """must PASS on the unchanged tree: the target branch deleted x.txt, the source branch's AI commit edits a.txt and
+    x.txt, squash by plain git with the modify/delete conflict resolved by deletion, then `git-ai squash-authorship`.
+    -> problems of the squash commit's note (empty = ok)"""
+    sim = Sim5(base, "sqdel")
+    try:
+        sim.init({"a.txt": "l1\nl2\nl3\n", "x.txt": "x1\nx2\n"})
+        sim.git("switch", "-c", "feat")
+        sim.checkpoint_human(["a.txt", "x.txt"])
+        sim.write("a.txt", "l1\nl2\nl3\nai1\n")
+        sim.write("x.txt", "x1\nx2\nxai1\nxai2\n")
+        sim.checkpoint_ai("s1", ["a.txt", "x.txt"], tool=TOOL)
+        sim.realgit("add", "-A")
+        sim.git("commit", "-q", "-m", "F1")
+        f1 = sim.head()
+        sim.git("switch", "main")
+        sim.git("rm", "-q", "x.txt")
+        sim.git("commit", "-q", "-m", "M1")
+        sim.realgit("merge", "--squash", "feat")
+        sim.realgit("rm", "-q", "-f", "x.txt")
+        sim.realgit("commit", "-q", "-m", "squash feat")
+        s_ = sim.head()
+        sim.gitai("squash-authorship", "main", s_, f1)
+        raw = sim.note_raw(s_)
+        if raw is None:
+            return ["no note written for the squash commit"]
+        n = parse_v3(raw)
+        ck = Checker(sim)
+        pr = [d for _, d in n["problems"]] + [d for _, d in structural_problems(n, s_, ck.files_lc(s_))]
+        if "a.txt" not in [p for p, _ in n["files"]]:
+            pr.append("the AI line of a.txt is not attested")
+        return pr
+    finally:
+        shutil.rmtree(sim.base, ignore_errors=True)
+
+
+def replay_delete_witness(base):
+    """C05-K2, second history: one feature commit (AI edits a.txt and x.txt), upstream deletes x.txt; the rebase stops
+    with a modify/delete conflict which is resolved by deletion; -> problem kinds of the rebased commit's note"""
+    sim = Sim5(base, "k2b")
+    try:
+        sim.init({"a.txt": "l1\nl2\nl3\n", "x.txt": "x1\nx2\n"})
+        sim.git("switch", "-c", "feat")
+        sim.checkpoint_human(["a.txt", "x.txt"])
+        sim.write("a.txt", "l1\nl2\nl3\nai1\n")
+        sim.write("x.txt", "x1\nx2\nxai1\nxai2\n")
+        sim.checkpoint_ai("s1", ["a.txt", "x.txt"], tool=TOOL)
+        sim.realgit("add", "-A")
+        sim.git("commit", "-q", "-m", "F1")
+        sim.git("switch", "main")
+        sim.git("rm", "-q", "x.txt")
+        sim.git("commit", "-q", "-m", "M1")
+        sim.git("switch", "feat")
+        sim.git("rebase", "main")
+        sim.realgit("rm", "-q", "-f", "x.txt")
+        sim.git("rebase", "--continue", env_extra={"GIT_EDITOR": "true"})
+        h = sim.head()
+        raw = sim.note_raw(h)
+        if raw is None:
+            return ["no_note"]
+        n = parse_v3(raw)
+        ck = Checker(sim)
+        return sorted({k for k, _ in structural_problems(n, h, ck.files_lc(h))})
+    finally:
+        shutil.rmtree(sim.base, ignore_errors=True)
+
+
 # ====================================================================== (C) tree correspondence on real repositories
 def gen_tree_case(r):
     nkeys = r.range(1, 6)
@@ -881,6 +991,45 @@ def att_oracle(las, out):
             if i_in != o_in:
                 return f"line {p} of {h}: in input {i_in}, in output {o_in}"
     return None
+
+
+def gen_merge_case(r):
+    """two attribution sets with their contents and a final state; files may be missing from any of the three"""
+    pool = ["a.txt", "x.txt", "d/e.rs", "s p.py"]
+    authors = [session_hash(TOOL, "s1"), session_hash(TOOL, "s2"), HUMAN]
+
+    def content():
+        return "".join(f"l{r.below(40)}\n" for _ in range(r.range(0, 5)))
+
+    def va():
+        fs = []
+        for p in r.shuffle(pool)[:r.range(0, 3)]:
+            c, attrs, pos = content(), [], 0
+            for ln in c.split("\n")[:-1]:
+                if r.chance(2, 3):
+                    attrs.append([pos, pos + len(ln) + 1, C.cps(r.pick(authors)), r.range(1, 5)])
+                pos += len(ln) + 1
+            fs.append([p, c, attrs])
+        return fs
+    primary, secondary = va(), va()
+    known = {p: c for p, c, _ in secondary}
+    known.update({p: c for p, c, _ in primary})
+    final = []
+    for p in pool:
+        k = r.weighted([(4, "absent"), (3, "same"), (3, "edited"), (1, "fresh")])
+        if k == "absent":
+            continue
+        if k == "same" and p in known:
+            final.append([p, known[p]])
+        elif k == "edited" and p in known:
+            ls = known[p].split("\n")[:-1]
+            ls.insert(r.range(0, len(ls)), f"n{r.below(40)}")
+            if len(ls) > 1 and r.chance(1, 2):
+                del ls[r.below(len(ls))]
+            final.append([p, "".join(x + "\n" for x in ls)])
+        else:
+            final.append([p, content()])
+    return primary, secondary, final
 
 
 PATH_POOL = ["src/a.rs", "b.txt", "my file.rs", 'q"x', FIELD, FIELD + ':"x', FIELD + ' : "y z', "x" + FIELD + ":1",
@@ -1090,6 +1239,55 @@ def run(ctx):
         if model and a != mod.get(i):
             mism.append(f"upsert {body[:100]}: impl {a} model {mod.get(i)}")
 
+    # ---------------------------------------------------------------- merge_attributions_favoring_first (squash / CI rewrite)
+    n45 = 700 if quick else 15000
+    cases, raws = [], {}
+    for i in range(n45):
+        pr, se, fi = gen_merge_case(r.fork(f"mg{i}"))
+        raws[f"m{i}"] = (pr, se, fi)
+        enc = lambda v: C.sx([[C.cps(p), C.cps(c), a] for p, c, a in v])
+        cases.append((f"m{i}", enc(pr) + " " + enc(se) + " " + C.sx([[C.cps(p), C.cps(c)] for p, c in fi])))
+    impl = C.run_cases(C.VHARNESS, "c05-merge", cases)
+    mcs = [(i, " ".join(C.sx([C.cps(p) for p, *_ in v]) for v in raws[i])) for i, _ in cases]
+    mod = C.run_cases(C.driver_path("notes"), "c05-merge", mcs) if model else {}
+    tracker_bad = []
+    n_absent = 0
+    for i, _ in cases:
+        evaluations += 1
+        a = impl.get(i)
+        pr, se, fi = raws[i]
+        if a is None or a in ("panic", "err"):
+            violations.append((f"merge_attributions_favoring_first: {a}", {"kind": "merge", "primary": pr, "secondary": se, "final": fi}))
+            continue
+        out = C.sx_parse_many(a)[0]
+        keys = [C.uncps(f[0]) for f in out]
+        fkeys = {p for p, _ in fi}
+        inputs = {p for p, *_ in pr} | {p for p, *_ in se}
+        if inputs - fkeys:
+            n_absent += 1
+            distinct.add(("merge", a, str(fi)))
+        # oracle: a file that is not part of the final state (not in the resulting commit) is not emitted
+        extra = [k for k in keys if k not in fkeys]
+        if extra:
+            violations.append((f"merge_attributions_favoring_first emits {extra} which are not in the final state {sorted(fkeys)} "
+                               f"(primary {[p for p, *_ in pr]}, secondary {[p for p, *_ in se]})",
+                               {"kind": "merge", "primary": pr, "secondary": se, "final": fi, "impl": a}))
+        # monitor of the theorem's tracker hypothesis: line attributions lie inside the final content
+        fin = dict((p, c) for p, c in fi)
+        for f in out:
+            p, lc = C.uncps(f[0]), f[1]
+            want_lc = line_count(fin[p]) if p in fin else lc
+            for la in f[2]:
+                if not (1 <= la[0] <= la[1] <= want_lc):
+                    tracker_bad.append(f"{p}: lines {la[0]}-{la[1]} of {want_lc}")
+        if model:
+            mk = [C.uncps(x) for x in C.sx_parse_many(mod.get(i, "()"))[0]]
+            if sorted(mk) != sorted(keys):
+                mism.append(f"merge_favoring_first files: impl {sorted(keys)} model {sorted(mk)} (final {sorted(fkeys)})")
+    obligations.append(("monitor:line attributions of a merged file lie inside its final content (hypothesis of C05_squash_note_ok)",
+                        not tracker_bad, "; ".join(tracker_bad[:3])))
+    cov["merge_cases_with_a_file_absent_from_final_state"] = n_absent
+
     # ---------------------------------------------------------------- remap
     n5 = 1200 if quick else 30000
     cases, raws = [], {}
@@ -1297,8 +1495,19 @@ def run(ctx):
     # ---------------------------------------------------------------- witnesses of the known classes
     if remap_witness(ctx.scratch):
         known_seen.add("C05-K3 base_commit_sha remap rewrites the first occurrence of the field literal, here inside a file name")
+    pr = squash_deleted_witness(ctx.scratch)
+    cov["squash_deleted_witness"] = pr or "ok"
+    if pr:
+        violations.append((f"squash-authorship after the target branch deleted x.txt: {pr[0]}",
+                           {"kind": "squash-deleted-witness", "problems": pr,
+                            "history": "base a.txt,x.txt; feat: AI appends to a.txt and x.txt (F1); main: git rm x.txt (M1); "
+                                       "git merge --squash feat, git rm x.txt, git commit (S); git-ai squash-authorship main S F1"}))
+    kinds2 = replay_delete_witness(ctx.scratch)
+    cov["replay_delete_witness_breaks"] = kinds2
+    if "file_absent" in kinds2:
+        known_seen.add("C05-K2 note written by the rebase / cherry-pick content replay: names a file absent from the commit")
     kinds = replay_witness(ctx.scratch)
-    evaluations += 2
+    evaluations += 4
     cov["replay_witness_breaks"] = kinds
     if "file_absent" in kinds:
         known_seen.add("C05-K2 note written by the rebase / cherry-pick content replay: names a file absent from the commit")
